@@ -209,6 +209,13 @@ func C07(c *core.Ctx) {
 	}
 	// the completeness score and base counts attached to each target are those of its whole sequence, however the file is wrapped
 	checkReaders(c, tabs, "R7/", true, "ReadEncodeScoreAlignment")
+	c07Identities(c, tabs)
+	c07Counts(c, tabs)
+}
+
+// c07Identities: the three distance functions as per-column transfer functions and algebraic identities (shared with
+// C06: the distances that are ranked are these exact values - no rounding, clamping or bucketing).
+func c07Identities(c *core.Ctx, tabs *Tables) {
 	one := func(f func(q, t byte) bool) func(q, t byte) int64 {
 		return func(q, t byte) int64 { return b2i(f(q, t)) }
 	}
@@ -238,7 +245,11 @@ func C07(c *core.Ctx) {
 		got, err1 := algebra.Normalise(de.result, rename(role, de.sum, nil))
 		want, _ := algebra.Normalise(fi("n"), nil)
 		if err1 != nil {
-			c.Und("R2/snpDistance/result", fn.Pos(), "cannot normalise result %s: %v", de.result, err1)
+			if strings.Contains(err1.Error(), "unsupported float operator") {
+				c.Ob("R2/snpDistance/result", false, fn.Pos(), "the value returned is not the specified quantity: it is post-processed (%v) - returned expression %s", err1, de.result)
+			} else {
+				c.Und("R2/snpDistance/result", fn.Pos(), "cannot normalise result %s: %v", de.result, err1)
+			}
 		} else {
 			eq, diff := algebra.Equal(got, want)
 			c.Ob("R2/snpDistance/result", eq, fn.Pos(), "returned %s, specified: number of disjoint columns; %s", de.result, diff)
@@ -258,7 +269,11 @@ func C07(c *core.Ctx) {
 		got, err1 := algebra.Normalise(de.result, rename(role, de.sum, nil))
 		want, _ := algebra.Normalise(fop("/", fi("n"), fi("d")), nil)
 		if err1 != nil {
-			c.Und("R2/rawDistance/result", fn.Pos(), "cannot normalise result %s: %v", de.result, err1)
+			if strings.Contains(err1.Error(), "unsupported float operator") {
+				c.Ob("R2/rawDistance/result", false, fn.Pos(), "the value returned is not the specified quantity: it is post-processed (%v) - returned expression %s", err1, de.result)
+			} else {
+				c.Und("R2/rawDistance/result", fn.Pos(), "cannot normalise result %s: %v", de.result, err1)
+			}
 		} else {
 			eq, diff := algebra.Equal(got, want)
 			c.Ob("R2/rawDistance/result", eq, fn.Pos(), "returned %s, specified n/d with n=disjoint columns, d=n+same-unambiguous-base columns; %s", de.result, diff)
@@ -295,7 +310,11 @@ func C07(c *core.Ctx) {
 		got, err1 := algebra.Normalise(de.result, rename(role, de.sum, counts))
 		want, err2 := algebra.Normalise(tn93Oracle(), nil)
 		if err1 != nil || err2 != nil {
-			c.Und("R2/tn93Distance/eq7", fn.Pos(), "cannot normalise: %v %v", err1, err2)
+			if err1 != nil && strings.Contains(err1.Error(), "unsupported float operator") {
+				c.Ob("R2/tn93Distance/eq7", false, fn.Pos(), "the value returned is not Tamura-Nei eq. 7: it is post-processed (%v)", err1)
+			} else {
+				c.Und("R2/tn93Distance/eq7", fn.Pos(), "cannot normalise: %v %v", err1, err2)
+			}
 		} else {
 			eq, diff := algebra.Equal(got, want)
 			c.Ob("R2/tn93Distance/eq7", eq, fn.Pos(), "returned expression is not Tamura-Nei eq. 7: %s", diff)
@@ -304,7 +323,6 @@ func C07(c *core.Ctx) {
 		}
 	}
 	c.Floor("R1/distance-functions", nfn, 3)
-	c07Counts(c, tabs)
 }
 
 // c07Counts: R3 — who writes the Count_* fields and from which table index.
